@@ -36,7 +36,14 @@ _SRP_TS = "class Ledger {\n" + "".join(f"  op{i}() {{\n    return {i};\n  }}\n" 
 _SRP_RS = "struct Ledger {\n    x: i32,\n}\nimpl Ledger {\n" + "".join(f"    pub fn op{i}(&self) -> i32 {{\n        {i}\n    }}\n" for i in range(3)) + "}\n"
 _RS_TESTS = ("fn production(s: &str) -> i32 {\n    let v = s.parse::<i32>().unwrap();\n    v\n}\n\n#[test]\n#[ignore]\nfn checks_parse() {\n    let v = \"1\".parse::<i32>().unwrap();\n"
              "    assert_eq!(v, 1);\n}\n\n#[cfg(test)]\nmod tests {\n    use super::*;\n\n    fn helper() -> i32 {\n        \"2\".parse::<i32>().unwrap()\n    }\n}\n")
+_CQS_FLUENT = ("class QueryBuilder {\n  where(clause) {\n    const parsed = parseClause(clause);\n    this.clauses.push(parsed);\n    return this;\n  }\n"
+               "  limit(n) {\n    const bounded = clamp(n);\n    this.setLimit(bounded);\n    return this;\n  }\n}\n\n"
+               "function fetchAndStore(db, key) {\n  const value = db.get(key);\n  db.save(key, value);\n  return value;\n}\n")
+_CQS_FLUENT_PY = ("class QueryBuilder:\n    def where(self, clause):\n        parsed = parse_clause(clause)\n        self.clauses.append(parsed)\n        return self\n\n"
+                  "def fetch_and_store(db, key):\n    value = db.get(key)\n    db.save(key, value)\n    return value\n")
 AT_LIMIT = {
+    "cqs-fluent.ts": ("typescript", _CQS_FLUENT, None),
+    "cqs-fluent.py": ("python", _CQS_FLUENT_PY, None),
     "unwrap-with-tests.rs": ("rust", _RS_TESTS, None),
     "srp-at-loc-limit.py": ("python", _SRP_PY, {"srp": {"max_loc": 7, "max_methods": 3}}),
     "srp-at-loc-limit.ts": ("typescript", _SRP_TS, {"srp": {"max_loc": 11, "max_methods": 3}}),
